@@ -139,6 +139,9 @@ func trimOut(s string) string {
 // whether protection is on; build such a value and call the real buffer().
 
 func replayC17(w *World, ob *Obligation, vc *VC) (bool, string) {
+	if strings.Contains(ob.Func, "GetCredentialHelper") {
+		return replayC17Shared(w)
+	}
 	if !strings.Contains(ob.Func, "buffer") {
 		return false, "no replay template for this function\n"
 	}
@@ -542,6 +545,9 @@ func TestVerifReplayClean(t *testing.T) {
 // the real queue against a server whose response omits the requested object.
 
 func replayC06(w *World, ob *Obligation, vc *VC) (bool, string) {
+	if strings.Contains(ob.Name, "handleTransferResult#post") {
+		return replayC06Unreported(w)
+	}
 	if !strings.Contains(ob.Name, "enqueueAndCollectRetriesFor#assert@loop_4_entry") {
 		return false, "no replay template for this obligation\n"
 	}
@@ -918,6 +924,132 @@ func TestVerifReplayC01Merge(t *testing.T) {
 }
 `
 	out, passed, err := runOverlayTest(w.repoDir, "commands", "zz_verif_replay_test.go", test, "TestVerifReplayC01Merge")
+	if err != nil {
+		return false, "replay could not run: " + err.Error() + "\n"
+	}
+	return !passed && strings.Contains(out, "REPRODUCED"), trimOut(out)
+}
+
+// C17, GetCredentialHelper writing state shared with earlier wrappers: the
+// history is  wrapper for URL A (protection on by default)  ->  wrapper for URL
+// B (credential.<B>.protectProtocol=false)  ->  the exchange for A.  The real
+// command helper of A's wrapper is asked to run `git credential fill`.
+
+func replayC17Shared(w *World) (bool, string) {
+	test := `package creds
+
+import (
+	"net/url"
+	"strings"
+	"testing"
+
+	"github.com/git-lfs/git-lfs/v3/config"
+)
+
+func TestVerifReplayC17Shared(t *testing.T) {
+	t.Setenv("GIT_TERMINAL_PROMPT", "0")
+	t.Setenv("GIT_ASKPASS", "")
+	t.Setenv("HOME", t.TempDir())
+	gitEnv := config.EnvironmentOf(config.MapFetcher(map[string][]string{
+		"credential.https://legacy.example.com.protectprotocol": {"false"},
+	}))
+	osEnv := config.EnvironmentOf(config.MapFetcher(map[string][]string{}))
+	ctxt := NewCredentialHelperContext(gitEnv, osEnv)
+	uA, _ := url.Parse("https://user%0Dinjected@git.example.com/repo.git")
+	uB, _ := url.Parse("https://legacy.example.com/old.git")
+	wA := ctxt.GetCredentialHelper(nil, uA)
+	_ = ctxt.GetCredentialHelper(nil, uB)
+	hs, ok := wA.CredentialHelper.(*CredentialHelpers)
+	if !ok || len(hs.helpers) == 0 {
+		t.Fatalf("unexpected wrapper %T", wA.CredentialHelper)
+	}
+	cmd, ok := hs.helpers[len(hs.helpers)-1].(*commandCredentialHelper)
+	if !ok {
+		t.Fatalf("last helper is %T", hs.helpers[len(hs.helpers)-1])
+	}
+	_, err := cmd.exec("fill", wA.Input)
+	if err == nil || !strings.Contains(err.Error(), "carriage return") {
+		t.Errorf("REPRODUCED: the exchange for %s (protection on) was not refused although username=%q contains a carriage return - a wrapper for another URL with protectProtocol=false was built in between (err: %v)", uA.Host, wA.Input["username"][0], err)
+	}
+}
+`
+	out, passed, err := runOverlayTest(w.repoDir, "creds", "zz_verif_replay_test.go", test, "TestVerifReplayC17Shared")
+	if err != nil {
+		return false, "replay could not run: " + err.Error() + "\n"
+	}
+	return !passed && strings.Contains(out, "REPRODUCED"), trimOut(out)
+}
+
+// C06, a failed transfer that is neither retried nor reported: the only error
+// class the code treats specially on that path is "unprocessable entity", so
+// the replay uploads one object to a server that answers the PUT with 422.
+
+func replayC06Unreported(w *World) (bool, string) {
+	test := `package tq
+
+import (
+	"crypto/sha256"
+	"encoding/hex"
+	"encoding/json"
+	"net/http"
+	"net/http/httptest"
+	"os"
+	"path/filepath"
+	"testing"
+	"time"
+
+	"github.com/git-lfs/git-lfs/v3/lfsapi"
+	"github.com/git-lfs/git-lfs/v3/lfshttp"
+)
+
+func TestVerifReplayC06Unreported(t *testing.T) {
+	content := []byte("some object content\n")
+	sum := sha256.Sum256(content)
+	oid := hex.EncodeToString(sum[:])
+	var srv *httptest.Server
+	srv = httptest.NewServer(http.HandlerFunc(func(w http.ResponseWriter, r *http.Request) {
+		if r.Method == "PUT" {
+			w.WriteHeader(422)
+			return
+		}
+		w.Header().Set("Content-Type", "application/vnd.git-lfs+json")
+		json.NewEncoder(w).Encode(map[string]interface{}{"transfer": "basic", "objects": []interface{}{map[string]interface{}{
+			"oid": oid, "size": len(content),
+			"actions": map[string]interface{}{"upload": map[string]interface{}{"href": srv.URL + "/storage/" + oid}},
+		}}})
+	}))
+	defer srv.Close()
+	cli, err := lfsapi.NewClient(lfshttp.NewContext(nil, nil, map[string]string{"lfs.url": srv.URL, "lfs.transfer.maxretries": "1"}))
+	if err != nil {
+		t.Fatal(err)
+	}
+	path := filepath.Join(t.TempDir(), "obj")
+	os.WriteFile(path, content, 0600)
+	delivered := 0
+	q := NewTransferQueue(Upload, NewManifest(nil, cli, "upload", "origin"), "origin")
+	watch := q.Watch()
+	done := make(chan struct{})
+	go func() {
+		for range watch {
+			delivered++
+		}
+		close(done)
+	}()
+	q.Add("obj", path, oid, int64(len(content)), false, nil)
+	fin := make(chan struct{})
+	go func() { q.Wait(); close(fin) }()
+	select {
+	case <-fin:
+	case <-time.After(20 * time.Second):
+		t.Fatal("Wait did not return")
+	}
+	<-done
+	if delivered == 0 && len(q.Errors()) == 0 {
+		t.Errorf("REPRODUCED: the upload was answered with 422; the object was not delivered to any watcher and Errors() is empty - it is not covered by any reported error")
+	}
+}
+`
+	out, passed, err := runOverlayTest(w.repoDir, "tq", "zz_verif_replay_test.go", test, "TestVerifReplayC06Unreported")
 	if err != nil {
 		return false, "replay could not run: " + err.Error() + "\n"
 	}
